@@ -285,10 +285,12 @@ class IpaddrOrHostname(RegularExpressionConversion):
         # We allow underscores in hostnames although this is considered
         # illegal according to RFC1034.
         # Addition: IPv6 addresses are now also accepted
-        expr = (r"(^(\d|[01]?\d\d|2[0-4]\d|25[0-5])\."  # ipaddr
-                r"(\d|[01]?\d\d|2[0-4]\d|25[0-5])\."    # ipaddr cont'd
-                r"(\d|[01]?\d\d|2[0-4]\d|25[0-5])\."    # ipaddr cont'd
-                r"(\d|[01]?\d\d|2[0-4]\d|25[0-5])$)"    # ipaddr cont'd
+        # The dotted-quad parts use [0-9], not \d: for str patterns \d also
+        # matches non-ASCII decimal digits.
+        expr = (r"(^([0-9]|[01]?[0-9][0-9]|2[0-4][0-9]|25[0-5])\."  # ipaddr
+                r"([0-9]|[01]?[0-9][0-9]|2[0-4][0-9]|25[0-5])\."
+                r"([0-9]|[01]?[0-9][0-9]|2[0-4][0-9]|25[0-5])\."
+                r"([0-9]|[01]?[0-9][0-9]|2[0-4][0-9]|25[0-5])$)"
                 # or superset of IPv6 addresses (requiring at least one colon);
                 # this must be tried before the hostname alternative, which
                 # would otherwise capture a leading run of hex letters
